@@ -18,9 +18,8 @@ def run(prop, tier):
     c = dict(TIERS[tier])
     consts = dict(c, EmitCases=True, EmitRes=sd % c["EmitMod"])
     cfg = tlc.make_cfg(consts, invariants=["CleanIsWF", "FaultBreaksWF", "VEmit"], spec="VSpec")
-    res = tlc.run("MC_HFValidity", cfg, workers=16, timeout=7200, coverage=(tier == "thorough"))
-    if tier == "thorough":
-        tlc.require_actions(res, ["VAddMod", "Inject", "Clean"], "MC_HFValidity")
+    # no -coverage (see hf.py: the coverage instrumentation of the HFModel family does not get past start-up); vacuity guard below
+    res = tlc.run("MC_HFValidity", cfg, workers=16, timeout=7200, jvm_opts=("-Xmx24g",) if tier == "thorough" else ())
     if not res.ok:
         raise Machinery("MC_HFValidity invariants fail (fault injector or WF definition is wrong):\n" + res.tail[-3000:])
     lines = open(res.cases_path).read().splitlines()
@@ -42,6 +41,8 @@ def run(prop, tier):
             v.violation(key, detail, tags)
         for tags in out.get("more_tags", []):
             v.violation("(overflow of the per-worker finding list)", {"tags": tags}, tags)
+    if clean == 0 or len(kinds) < 6:
+        raise Machinery(f"C20: vacuous run (clean controls {clean}, fault kinds {sorted(kinds)})")
     rnd = random.Random(sd)
     for ln in rnd.sample(lines, min(3, len(lines))):
         cse = json.loads(ln)
